@@ -354,6 +354,27 @@ impl Driver {
                 self.expect_err = true;
             }
             Op::Put(k, v) => self.write(k, v, ValueType::Value),
+            Op::Put2(k1, v1, k2, v2) => {
+                // two writers: both draw their seqno, the one with the higher seqno inserts first
+                let suffix = |v: &Vec<u8>, x: Option<u8>| {
+                    let mut vv = v.clone();
+                    if let Some(x) = x {
+                        vv.push(x);
+                    }
+                    vv
+                };
+                let (v1, v2) = (suffix(v1, self.vsuffix), suffix(v2, self.vsuffix));
+                let s1 = self.seqno.next();
+                let s2 = self.seqno.next();
+                {
+                    let t = self.tree();
+                    t.insert(k2, &v2, s2);
+                    t.insert(k1, &v1, s1);
+                }
+                self.visible.fetch_max(s2 + 1);
+                let _ = writeln!(self.out, "W {} {} V {}", hex(k1), s1, hex(&v1));
+                let _ = writeln!(self.out, "W {} {} V {}", hex(k2), s2, hex(&v2));
+            }
             Op::Del(k) => self.write(k, &[], ValueType::Tombstone),
             Op::WDel(k) => self.write(k, &[], ValueType::WeakTombstone),
             Op::Rotate => {
